@@ -117,6 +117,7 @@ def explore(
     verbose=False,
     max_decisions=20000,
     path_timeout=120,
+    max_degree=6,
 ):
     """Explore every feasible control path of ``fn(xs)`` where xs are symbolic reals.
 
@@ -142,6 +143,7 @@ def explore(
             p, op = core.normalise(d.n, sb.op)
             dom_atoms.append(Atom(p, op))
     tr = Tracer(names, dom_atoms, timeout_ms=timeout_ms, max_decisions=max_decisions)
+    tr.max_degree = max_degree
     core.set_tracer(tr)
     stats = dict(paths=0, infeasible_alt=0, unknown_alt=0, diverged=0, by_kind={}, vacuous=False)
     if seed_env is None:
